@@ -4,7 +4,7 @@ CONFIG = {
     'driver': 'Ser',
     'harness': {'name': 'ser', 'srcs': ['harness/h_ser.cc', 'harness/h_ser_le.cc', 'harness/h_ser_be.cc'],
                 'args': ['--prop', 'C15']},
-    'rule': 'cases = (type, value) pairs over 73 concrete C++ types (64 in the swap build, incl. the real '
+    'rule': 'cases = (type, value) pairs over 75 concrete C++ types (64 in the swap build; std::u16string / std::u32string in the default build, presented as V(u2) / V(u4); incl. the real '
             'dmlc::data::RowBlockContainer<uint32_t|uint64_t,float>::Save/Load presented as the class of its nine members; depth <= 3: arithmetic 1/2/4/8 '
             'bytes incl. float/double bit patterns, string, pair, vector/list/deque, set/multiset/unordered_set, '
             'map/multimap/unordered_map, classes with Save/Load, POD structs) x both byte-order builds, each with the '
